@@ -685,26 +685,18 @@ func driveArshal(args map[string]string) error {
 		// pad lengths 0..maxpad in steps, phase shifted by the seed so that successive runs cover all lengths
 		step, maxpad := argInt(args, "step", 3), argInt(args, "maxpad", 5200)
 		id := 0
-		var mu sync.Mutex
-		var wg sync.WaitGroup
-		sem := make(chan struct{}, runtime.NumCPU())
+		runtime.LockOSThread() // one goroutine on one thread: the pooled encoder it puts back is the one it gets next
 		for L := int(seed) % step; L <= maxpad; L += step {
 			for vi, on := range []string{"default", "multiline"} {
-				id++
-				wg.Add(1)
-				sem <- struct{}{}
-				go func(id, L, vi int, on string) {
-					defer wg.Done()
-					defer func() { <-sem }()
-					c := arshalCase{ID: id, Prop: argStr(args, "prop", "C07"), Kind: "sweep", Seed: []uint64{uint64(L), uint64(L/step + vi*3)}, Opts: arshalOpts{Name: on}}
+				for rep := 0; rep < 3; rep++ {
+					id++
+					c := arshalCase{ID: id, Prop: argStr(args, "prop", "C07"), Kind: "sweep", Seed: []uint64{uint64(L), uint64((L/step)*7 + vi*3 + rep*5)}, Opts: arshalOpts{Name: on}}
 					c07SweepExec(&c)
-					mu.Lock()
 					out.put(c)
-					mu.Unlock()
-				}(id, L, vi, on)
+				}
 			}
 		}
-		wg.Wait()
+		runtime.UnlockOSThread()
 		summary(map[string]any{"cases": id, "succeeded": id})
 		return nil
 	}
@@ -1184,8 +1176,14 @@ func c07SweepExec(c *arshalCase) {
 	}
 	c.Type = fmt.Sprintf("sweepT pad=%d variant=%d", L, variant)
 	opts := c.Opts.options(nil)
-	if variant%8 >= 4 { // a failed MarshalWrite first: the recycled encoder must come back clean
-		jsonv2.MarshalWrite(&scriptedWriter{outcomes: []int{3}}, []string{strings.Repeat("stale", 40)})
+	// Each case brings the recycled streaming encoder into a known state first, so that it gives
+	// the same result when re-executed alone: a warm-up write sizes the pooled buffer (its flush
+	// threshold is 75% of the capacity), optionally ending in a failed write.
+	warm := []int{0, L / 2, L, 2 * L, 64, 4096}[variant%6]
+	if variant%12 >= 6 {
+		jsonv2.MarshalWrite(&scriptedWriter{outcomes: []int{3}}, []string{strings.Repeat("stale", 8+warm/5)})
+	} else if warm > 0 {
+		jsonv2.MarshalWrite(&scriptedWriter{}, strings.Repeat("w", warm))
 	}
 	outs := marshalRoutes(v, opts)
 	for _, o := range outs {
